@@ -51,7 +51,7 @@ func newSeqPlan(tier string, fuzzQuick, fuzzThorough int) *seqPlan {
 	p.space = qt.NewSpace(qt.QuickLeaves())
 	p.nTree = nBatches(p.space.Size())
 	p.nFuzz = fuzzQuick
-	p.nHost = 2
+	p.nHost = 8
 	p.nLong = 8
 	p.nFrag = 6
 	if tier == "thorough" {
@@ -72,6 +72,10 @@ func hostileInputs(h string) []string {
 	}
 	if e := qt.Escaped(h).Text; e != "" {
 		ins = append(ins, e, "a:"+e, e+":b", "a:["+e+" TO b]", "a:"+e+"*")
+	}
+	if !strings.Contains(h, "'") {
+		// single-quoted: the token keeps its quotes, double quotes inside it are dropped
+		ins = append(ins, "'"+h+"'", "a:'"+h+"'", "NOT '"+h+"' b", "a:('"+h+"' OR c)")
 	}
 	// the string as a field name (raw, quoted, escaped) under every leaf kind
 	fields := []string{h}
